@@ -611,4 +611,80 @@ theorem run_inv_base (a : Nat) (x : Boxed) : ∀ (ops : List Op) {s : State}, In
     have h := step_inv_base hI op hD
     exact ih h.1 hG' (h.2 a x hB hw)
 
+/-! ## what one mocker remembers, whatever the other mockers do (no discipline, no invariant) -/
+
+/-- operations that do not cancel mocker `i` (Resets are excluded here, see `restore_own_first_partial`) -/
+def KeepsMock (i : Nat) : Op → Prop
+  | .cancel j => j ≠ i
+  | .reset _ _ => False
+  | _ => True
+
+/-- what mocker `i` remembers: it holds a mock of variable `a` and saved `x` -/
+def Holds (s : State) (i a : Nat) (x : Boxed) : Prop :=
+  i < s.n ∧ (s.mks i).mocked = true ∧ (s.mks i).origin = x ∧ (s.mks i).addr = a
+
+theorem doSet_holds (t : State) (j : Nat) (v : Boxed) (i a : Nat) (x : Boxed) (h : Holds t i a x) :
+    Holds (doSet false t j v).1 i a x := by
+  obtain ⟨h1, h2, h3, h4⟩ := h
+  rcases doSet_cases t j v with ⟨hs, _⟩ | ⟨p, _, hs⟩ | ⟨c, _, _, _, hs⟩
+  · rw [hs]; exact ⟨h1, h2, h3, h4⟩
+  · rw [hs]
+    by_cases hji : i = j
+    · subst hji; simp only [Holds, upd_same, h2, if_true]; exact ⟨h1, trivial, h3, h4⟩
+    · simp only [Holds, upd, if_neg hji]; exact ⟨h1, h2, h3, h4⟩
+  · rw [hs]
+    by_cases hji : i = j
+    · subst hji; simp only [Holds, upd_same, h2, if_true]; exact ⟨h1, trivial, h3, h4⟩
+    · simp only [Holds, upd, if_neg hji]; exact ⟨h1, h2, h3, h4⟩
+
+theorem setOp_holds (s : State) (j : Nat) (v : Boxed) (i a : Nat) (x : Boxed) (h : Holds s i a x) :
+    Holds (setOp false s j v).1 i a x := by
+  rw [setOp_eq]
+  split
+  · cases v with
+    | none => exact h
+    | some y =>
+      apply doSet_holds
+      obtain ⟨h1, h2, h3, h4⟩ := h
+      by_cases hji : i = j
+      · subst hji; simp only [Holds, retarget, upd_same]; exact ⟨h1, h2, h3, h4⟩
+      · simp only [Holds, retarget, upd, if_neg hji]; exact ⟨h1, h2, h3, h4⟩
+  · exact doSet_holds s j v i a x h
+
+theorem step_holds (s : State) (op : Op) (i a : Nat) (x : Boxed) (h : Holds s i a x) (hk : KeepsMock i op) :
+    Holds (step false s op).1 i a x := by
+  cases op with
+  | look b ue c =>
+    obtain ⟨h1, h2, h3, h4⟩ := h
+    simp only [step, look]
+    cases s.cache b ue c with
+    | some j => exact ⟨h1, h2, h3, h4⟩
+    | none =>
+      have hne : i ≠ s.n := by omega
+      simp only [Holds, upd, if_neg hne]
+      exact ⟨by omega, h2, h3, h4⟩
+  | lookBad p => exact h
+  | pkg b p => exact h
+  | write c v => exact h
+  | set j v => exact setOp_holds s j v i a x h
+  | apply j cb =>
+    simp only [step, applyOp]
+    cases cbResult cb with
+    | error p => exact h
+    | ok v => simp only [Bool.false_eq_true, if_false]; exact setOp_holds s j v i a x h
+  | cancel j =>
+    have hji : i ≠ j := fun e => hk e.symm
+    obtain ⟨h1, h2, h3, h4⟩ := h
+    simp only [step, cancel, Bool.false_eq_true, if_false]
+    split
+    · split
+      · exact ⟨h1, h2, h3, h4⟩
+      · split
+        · exact ⟨h1, h2, h3, h4⟩
+        · split
+          · exact ⟨h1, h2, h3, h4⟩
+          · simp only [Holds, upd, if_neg hji]; exact ⟨h1, h2, h3, h4⟩
+    · simp only [Holds, upd, if_neg hji]; exact ⟨h1, h2, h3, h4⟩
+  | reset b ord => exact absurd hk id
+
 end C08L
